@@ -51,8 +51,24 @@ pub fn decode_rcase(choices: &[u32], tier: Tier, ninputs: usize, max_len: usize,
         .collect();
     let mut inputs = vec![];
     let mut layouts = vec![];
-    for _ in 0..ninputs {
-        let inp = if ch.chance(3, 4) {
+    for k in 0..ninputs {
+        // long-tail stratum: more than 250 valid lexemes after an early error, so that the
+        // "probe the continuation for at most 250 lexemes" logic of the ranking is exercised
+        let long_tail = max_edits <= 3 && k == 0 && ch.chance(1, 6);
+        let inp = if long_tail {
+            let mut s = gen_sentence(&mut ch, &ag, 290).unwrap_or_default();
+            if s.len() > 6 {
+                let pos = ch.pick(4);
+                match ch.pick(3) {
+                    0 => {
+                        s.remove(pos);
+                    }
+                    1 => s.insert(pos, ch.pick(ag.tokens.len())),
+                    _ => s[pos] = ch.pick(ag.tokens.len()),
+                }
+            }
+            s
+        } else if ch.chance(3, 4) {
             let mut s = gen_sentence(&mut ch, &ag, max_len).unwrap_or_default();
             let e = ch.range(1, max_edits);
             mutate_input(&mut ch, &ag, &mut s, e);
@@ -568,9 +584,8 @@ pub fn check_c06(
             return false;
         }
         // exhaustive reference search up to the reported cost
-        if input.len() - site.index > 10 {
-            o.class("c06:skipped-long-rest");
-            continue;
+        if input.len() - site.index > 250 {
+            o.class("c06:long-tail");
         }
         let Some(res) = recov::repair_search(b, &site.stack, input, site.index, cost_by_tidx, costs[0], 60_000) else {
             o.class("c06:oracle-budget-or-none");
@@ -585,8 +600,11 @@ pub fn check_c06(
             );
             return false;
         }
-        if set != res.expect {
-            let missing: Vec<_> = res.expect.difference(&set).take(3).collect();
+        // every repair that continues as far as the best one (followed to the end of the input)
+        // must be there; nothing may be there that does not continue as far as the best one when
+        // probed for 250 lexemes from the error (the documented approximation)
+        if !(res.expect_uncapped.is_subset(&set) && set.is_subset(&res.expect)) {
+            let missing: Vec<_> = res.expect_uncapped.difference(&set).take(3).collect();
             let extra: Vec<_> = set.difference(&res.expect).take(3).collect();
             let sig = if !extra.is_empty() && extra.iter().all(|x| !res.all_min.contains(*x)) {
                 "C06/reported-not-a-minimum-cost-repair"
